@@ -23,10 +23,13 @@ type sharedSlices struct {
 	getters map[string]bool // method names returning a receiver's slice field unchanged
 	table   []string
 	memo    map[string]int // helper summaries: fnName|param -> 0 unknown(in progress) 1 writes 2 clean
+	// what is shared at some point of a function: the entry facts of the literals it contains (a captured
+	// variable that shares a backing array somewhere in the parent may share it when the literal runs)
+	anywhere map[*Fn]Facts
 }
 
 func newSharedSlices(p *Prog) *sharedSlices {
-	ss := &sharedSlices{p: p, getters: map[string]bool{}, memo: map[string]int{}}
+	ss := &sharedSlices{p: p, getters: map[string]bool{}, memo: map[string]int{}, anywhere: map[*Fn]Facts{}}
 	for _, fn := range p.Fns {
 		if fn.Obj == nil || fn.Orig != nil || fn.Body == nil || fn.Decl == nil || fn.Decl.Recv == nil || strings.HasSuffix(fn.Pkg.PkgPath, "/test") {
 			continue
@@ -194,6 +197,20 @@ func (ss *sharedSlices) writes(fn *Fn, entry Facts, depth int) []sharedWrite {
 		}
 	}
 	fl.Run()
+	if ss.anywhere != nil && depth == 0 {
+		u := Facts{}
+		for _, fs := range fl.In {
+			for k := range fs {
+				u[k] = true
+			}
+		}
+		for _, fs := range fl.Out {
+			for k := range fs {
+				u[k] = true
+			}
+		}
+		ss.anywhere[fn] = u
+	}
 	var out []sharedWrite
 	seen := map[token.Pos]bool{}
 	add := func(pos token.Pos, what string, e ast.Expr) {
@@ -293,6 +310,7 @@ func sharedSlicesReadOnly(c *Ctx, r *Report, rule string) {
 	r.Tables["getters_handing_out_internal_slices"] = ss.table
 	r.Floor(rule, "getters that hand out an internal slice", len(ss.table), 4)
 	ncall := 0
+	// parents before the literals they contain (p.Fns lists a declaration before its literals)
 	for _, fn := range p.Fns {
 		if fn.Orig != nil || fn.Body == nil || strings.HasSuffix(fn.Pkg.PkgPath, "/test") {
 			continue
@@ -304,11 +322,17 @@ func sharedSlicesReadOnly(c *Ctx, r *Report, rule string) {
 			}
 			return true
 		})
-		if n == 0 {
+		var entry Facts
+		if fn.Parent != nil {
+			if u := ss.anywhere[fn.Parent]; len(u) > 0 {
+				entry = u.Clone()
+			}
+		}
+		if n == 0 && len(entry) == 0 {
 			continue
 		}
 		ncall += n
-		ws := ss.writes(fn, nil, 0)
+		ws := ss.writes(fn, entry, 0)
 		r.Check(len(ws) == 0, rule, r.Key(rule, fn, "reads-only", ""), fn.Body.Pos(),
 			fmt.Sprintf("%d slice(s) obtained from getters are only read", n),
 			"a slice obtained from a getter is written in place (see the write sites reported for this function)")
